@@ -12,7 +12,21 @@ sort_expr, reverse_expr, every combination of start / end / size / orphan / over
 beyond the sequence) and x values that are equal but print differently; every rendering is compared with the documented
 text and the caller's sequences must be left as they were.
 Correspondence: the unbatched, unsorted subset over lists / tuples on the Lean interpreter model (op "render").
+Round 7 widening.  (a) SEQUENCE ADAPTATION: the sequence may be anything `sequence_ensure_subscription` has to adapt or pass
+through: one-shot iterators of every PEP 424 behaviour (no hint, exact hint, upper bound of a filtering stream, lower bound,
+half, always 0, too large, NotImplemented, TypeError), builtin iterator objects (filter / map / chain / islice / reversed /
+an iterator handed over mid-stream), re-iterable objects with only __iter__, with __iter__ + __len__ (dict views), with
+only __getitem__ (legacy protocol), deque / UserList; a deterministic sweep container x item kind x length x option set
+runs in both tiers (small option set in quick, all in thorough).  (b) ELEMENT NAMES: elements carry attributes / keys
+whose names are drawn from every class of name the tag grammar lets a template write (identifiers, names with '-', with
+'.', ':', leading digits, non-ASCII, keywords, names that merely look like sequence variables), present on some elements
+only, with falsy values, with and without an outer variable of the same name; objects serve them from the instance
+dict, from __getattr__, from the class or from properties.  Oracle: pushed element answers, else the enclosing namespace,
+else the `missing` text; after the end tag the outer value (or nothing) again.  The plain subset of (b) is inside the
+Lean model (InstanceDict lookup is by arbitrary key) and goes through the correspondence.
 """
+import collections
+import itertools
 import json
 
 import common
@@ -39,18 +53,24 @@ def body_blocks(kind, opts):
     bs = []
     for f in FIXED:
         bs += [v('sequence-' + f), ['lit', '|']]
-    if kind in ('obj', 'str', 'int', 'tuple'):
+    if kind in ('obj', 'str', 'int', 'tuple', 'mixed'):
         bs += [['lit', 'item='], v('sequence-item'), ['lit', '|']]
     if kind in ('tuple', 'tuplemap'):
         bs += [['lit', 'key='], v('sequence-key'), ['lit', '|']]
-    if kind in ('obj', 'map', 'tuple', 'tuplemap'):
+    if kind in ('obj', 'map', 'tuple', 'tuplemap', 'mixedmap'):
         bs += [['lit', 'var='], v('sequence-var-x'), ['lit', '|f='], v('first-x'), ['lit', '|l='], v('last-x'), ['lit', '|']]
     bs += [['lit', 'x='], v('x', 'NOPUSH'), ['lit', '|']]
+    for nm in opts.get('names') or ():
+        bs += [['lit', 'n:'], v(nm, 'NOPUSH'), ['lit', '|']]
+        if nm in (opts.get('outer') or {}):
+            # the same name through the namespace object of an expression: _['name'] (always answered: by the element or
+            # by the enclosing namespace)
+            bs += [['lit', 'u:'], ['var', ['e', ['under', nm]], False, None, None], ['lit', '|']]
     if opts.get('prefix'):
         p = opts['prefix']
         for f in FIXED:
             bs += [v(p + '_' + f), ['lit', '|']]
-        if kind in ('obj', 'str', 'int', 'tuple'):
+        if kind in ('obj', 'str', 'int', 'tuple', 'mixed'):
             bs += [['lit', 'pitem='], v(p + '_item'), ['lit', '|']]
         if kind in ('tuple', 'tuplemap'):
             bs += [['lit', 'pkey='], v(p + '_key'), ['lit', '|']]
@@ -65,6 +85,30 @@ def jstr(vv):
         if 'o' in vv:
             return 'obj%d' % vv['o']
     return str(vv)
+
+
+def ekind(item, kind):
+    """the kind of this element: in a mixed sequence every element has its own"""
+    if kind == 'mixed':
+        if isinstance(item, dict):
+            return 'tuple' if 't' in item else 'obj' if 'o' in item else 'str'
+        return 'int'
+    if kind == 'mixedmap':
+        return 'tuplemap' if 't' in item else 'map'
+    return kind
+
+
+def attrs_of(item, kind):
+    """the (name, value) pairs the element offers to the body: attributes of an object, keys of a mapping"""
+    if kind == 'obj':
+        return dict(item['a'])
+    if kind == 'map':
+        return dict(item['d'])
+    if kind == 'tuple':
+        return dict(item['t'][1]['a'])
+    if kind == 'tuplemap':
+        return dict(item['t'][1]['d'])
+    return {}
 
 
 def xval(item, kind):
@@ -106,21 +150,32 @@ def expected(items, kind, opts, order=None, window=None):
         cells = [i, i + 1, chr(97 + i), chr(65 + i), to_roman(i + 1).lower(), to_roman(i + 1), i % 2 == 0, i % 2,
                  1 if first else 0, 1 if last else 0, n]
         line = ''.join('%s|' % c for c in cells)
-        item = it['t'][1] if kind in ('tuple', 'tuplemap') else it
-        if kind in ('obj', 'str', 'int', 'tuple'):
+        ek = ekind(it, kind)
+        item = it['t'][1] if ek in ('tuple', 'tuplemap') else it
+        if kind in ('obj', 'str', 'int', 'tuple', 'mixed'):
             line += 'item=%s|' % jstr(item)
         if kind in ('tuple', 'tuplemap'):
             line += 'key=%s|' % jstr(it['t'][0])
-        if kind in ('obj', 'map', 'tuple', 'tuplemap'):
-            x = xval(it, kind)
-            f = 1 if first else (x != xval(seq[i - 1], kind))
-            la = 1 if last else (x != xval(seq[i + 1], kind))
+        if kind in ('obj', 'map', 'tuple', 'tuplemap', 'mixedmap'):
+            x = xval(it, ek)
+            f = 1 if first else (x != xval(seq[i - 1], ekind(seq[i - 1], kind)))
+            la = 1 if last else (x != xval(seq[i + 1], ekind(seq[i + 1], kind)))
             line += 'var=%s|f=%s|l=%s|' % (jstr(x), f, la)
-        pushed = kind in ('obj', 'map', 'tuple', 'tuplemap') and not opts.get('noPush')
-        line += 'x=%s|' % (jstr(xval(it, kind)) if pushed else 'NOPUSH')
+        pushed = ek in ('obj', 'map', 'tuple', 'tuplemap') and not opts.get('noPush')
+        line += 'x=%s|' % (jstr(xval(it, ek)) if pushed else 'NOPUSH')
+        for nm in opts.get('names') or ():
+            # the element (when pushed) answers first, then the enclosing namespace, then nobody
+            own = attrs_of(it, ek) if pushed else {}
+            if nm in own:
+                cell = jstr(own[nm])
+            else:
+                cell = (opts.get('outer') or {}).get(nm, 'NOPUSH')
+            line += 'n:%s|' % cell
+            if nm in (opts.get('outer') or {}):
+                line += 'u:%s|' % cell
         if opts.get('prefix'):
             line += ''.join('%s|' % c for c in cells)
-            if kind in ('obj', 'str', 'int', 'tuple'):
+            if kind in ('obj', 'str', 'int', 'tuple', 'mixed'):
                 line += 'pitem=%s|' % jstr(item)
             if kind in ('tuple', 'tuplemap'):
                 line += 'pkey=%s|' % jstr(it['t'][0])
@@ -132,20 +187,69 @@ def jx(v):
     return v['s'] if isinstance(v, dict) else v
 
 
-def gen_items(r, kind, n):
+# Names an element may offer to the body.  The tag grammar takes any run of characters other than blanks, '=' and '"' as a
+# name, and getattr / mapping keys accept any string, so every class of such names is generated.  Left out: names that
+# start with '_' (private by C05), names that are option names of dtml-var (finding C07-var-named-var), and names inside the
+# sequence variables' own grammar (sequence-*, first-*, last-*, previous-*, next-*, <statistic>-*): there the property
+# text promises both "the documented value" and "the element's attribute" and does not say which wins.
+NAME_CLASSES = {
+    'identifier': ['z', 'nm_1', 'Zip9', 'w'],
+    'dashed': ['e-mail', 'zip-code', 'a-b-c', 'content-type', 'x-y', 'x-', 'Accept-Language'],
+    'looks_like_sequence_variable': ['zip-number', 'row-key', 'my-item', 'doc-items', 'x-length', 'a-index', 'b-var-x',
+                                     'seq-roman', 'sequence_item'],
+    'punctuated': ['a.b', 'w:h', 'km/h', 'p+q', 'm@n'],
+    'not_an_identifier': ['2nd', '9', 'class', 'None', 'gr\u00f6\u00dfe', '\u03bb'],
+}
+NAME_POOL = [(c, nm) for c, nms in sorted(NAME_CLASSES.items()) for nm in nms]
+
+
+def draw_names(r, k=None):
+    """0..2 extra names of different classes"""
+    if k is None:
+        k = r.choice([0, 1, 1, 2])
+    return [nm for c, nm in r.sample(NAME_POOL, k)]
+
+
+def name_class(nm):
+    return [c for c, n in NAME_POOL if n == nm][0]
+
+
+def draw_outer(r, names):
+    """outer variables of the same names as (some of) the element names"""
+    return {nm: 'OUT%d' % i for i, nm in enumerate(names) if r.random() < 0.45}
+
+
+def extra_attrs(r, names, i):
+    """the extra (name, value) pairs of element i: a name is present on most elements only; values may be falsy"""
+    out = []
+    for j, nm in enumerate(names):
+        if r.random() < 0.8:
+            out.append([nm, r.choice([{'s': 'v%d_%d' % (j, i)}, {'s': 'v%d_%d' % (j, i)}, 7 + i, 0, {'s': ''}])])
+    return out
+
+
+MIXED = {'mixed': ('obj', 'tuple', 'str', 'int'), 'mixedmap': ('map', 'tuplemap')}
+
+
+def gen_items(r, kind, n, names=()):
+    """n elements of the kind; in the kinds `mixed` (objects, (key, object) pairs, strings, numbers: no `mapping`) and
+    `mixedmap` (mappings and (key, mapping) pairs: with `mapping`) every element draws its own kind"""
     items = []
     strs = r.random() < 0.4
     for i in range(n):
         x = {'s': r.choice(['a', 'b', 'b', 'c'])} if strs else r.choice([1, 2, 2, 3])
-        if kind == 'obj':
-            items.append({'o': 100 + i, 'a': [['x', x], ['y', i]]})
-        elif kind == 'map':
-            items.append({'d': [['x', x], ['y', i]]})
-        elif kind == 'tuple':
-            items.append({'t': [r.choice([{'s': 'k%d' % i}, i * 10]), {'o': 100 + i, 'a': [['x', x]]}]})
-        elif kind == 'tuplemap':
-            items.append({'t': [r.choice([{'s': 'k%d' % i}, i * 10]), {'d': [['x', x], ['y', i]]}]})
-        elif kind == 'str':
+        ek = r.choice(MIXED[kind]) if kind in MIXED else kind
+        if ek == 'obj':
+            items.append({'o': 100 + i, 'a': [['x', x], ['y', i]] + extra_attrs(r, names, i)})
+        elif ek == 'map':
+            items.append({'d': [['x', x], ['y', i]] + extra_attrs(r, names, i)})
+        elif ek == 'tuple':
+            items.append({'t': [r.choice([{'s': 'k%d' % i}, i * 10]),
+                                {'o': 100 + i, 'a': [['x', x]] + extra_attrs(r, names, i)}]})
+        elif ek == 'tuplemap':
+            items.append({'t': [r.choice([{'s': 'k%d' % i}, i * 10]),
+                                {'d': [['x', x], ['y', i]] + extra_attrs(r, names, i)}]})
+        elif ek == 'str':
             items.append({'s': r.choice(['s%d' % i, 'x', ''])})
         else:
             items.append(r.choice([0, 5, -1, i]))
@@ -153,9 +257,9 @@ def gen_items(r, kind, n):
 
 
 def make(r, kind, n, opts):
-    items = gen_items(r, kind, n)
+    items = gen_items(r, kind, n, opts.get('names') or ())
     inopts = {}
-    if kind in ('map', 'tuplemap'):
+    if kind in ('map', 'tuplemap', 'mixedmap'):
         inopts['mapping'] = True
     if opts.get('noPush'):
         inopts['noPush'] = True
@@ -169,12 +273,19 @@ def make(r, kind, n, opts):
     loop = ['in', ['n', 'seq'], inopts, body, [['lit', 'EMPTY']] if opts.get('else') else None]
     tail = [['lit', '#'], ['var', ['n', 'sequence-item'], False, 'GONE', None],
             ['var', ['n', 'x'], False, 'GONE', None], ['var', ['n', 'sequence-index'], False, 'GONE', None]]
+    # after the end tag the element names are whatever the enclosing namespace says again
+    tail += [['var', ['n', nm], False, 'GONE', None] for nm in opts.get('names') or ()]
     if opts.get('boom') is not None:
         blocks = [['let', [['outerv', ['e', ['lit', 1]]]], [['try', [loop], [['', [['lit', 'CAUGHT']]]], None]] + tail],
                   ['var', ['n', 'outerv'], False, 'GONE', None]]
     else:
         blocks = [loop] + tail
     return items, blocks
+
+
+def tail_expected(opts):
+    return ('#GONEGONEGONE' + ''.join((opts.get('outer') or {}).get(nm, 'GONE') for nm in opts.get('names') or ())
+            + ('GONE' if opts.get('boom') is not None else ''))
 
 
 def source_for(blocks, opts):
@@ -256,26 +367,216 @@ class Lazy:
         return len(self._d)
 
 
+class OnlyIter:
+    """re-iterable, nothing else: every __iter__ starts a new pass"""
+
+    def __init__(self, data):
+        self._d = data
+
+    def __iter__(self):
+        return iter(list(self._d))
+
+
+class SizedIter(OnlyIter):
+    """__iter__ and a true __len__ but no subscription (what sets and dict views offer)"""
+
+    def __len__(self):
+        return len(self._d)
+
+
+class OnlyGetitem:
+    """the legacy sequence protocol: __getitem__ from 0 until IndexError, no __len__, no __iter__"""
+
+    def __init__(self, data):
+        self._d = data
+
+    def __getitem__(self, i):
+        if not isinstance(i, int) or i < 0:
+            raise IndexError(i)
+        return self._d[i]
+
+
+HINT_POLICIES = ('exact', 'upper', 'lower', 'half', 'zero', 'over', 'notimpl', 'typeerror')
+
+
+class HintedIter:
+    """A one-shot iterator with a PEP 424 length hint ("may be inexact").  It walks over candidates of which only some
+    are delivered (a filtering stream); `policy` says what it reports about the number still to come:
+    exact | upper (candidates not looked at yet) | lower (1 while anything is left) | half | zero | over (2 too many) |
+    notimpl (NotImplemented) | typeerror (raises TypeError, which length_hint treats like no hint)."""
+
+    def __init__(self, data, policy):
+        self._c = []
+        for i, e in enumerate(data):
+            self._c += [(False, None)] * (i % 2) + [(True, e)]      # a dropped candidate before every second element
+        self._c.append((False, None))                               # and one at the very end
+        self._pos = 0
+        self._policy = policy
+
+    def __iter__(self):
+        return self
+
+    def __next__(self):
+        while self._pos < len(self._c):
+            keep, e = self._c[self._pos]
+            self._pos += 1
+            if keep:
+                return e
+        raise StopIteration
+
+    def __length_hint__(self):
+        left = sum(1 for keep, e in self._c[self._pos:] if keep)
+        p = self._policy
+        if p == 'exact':
+            return left
+        if p == 'upper':
+            return len(self._c) - self._pos
+        if p == 'lower':
+            return min(left, 1)
+        if p == 'half':
+            return left // 2
+        if p == 'zero':
+            return 0
+        if p == 'over':
+            return left + 2
+        if p == 'notimpl':
+            return NotImplemented
+        raise TypeError('no hint')
+
+
+_DROP = object()
+
+# containers the caller can hand to several renderings (the object itself is kept) / one-shot iterators (re-made per rendering)
+REUSABLE = ('list', 'tuple', 'lazy', 'deque', 'userlist', 'onlyiter', 'sizediter', 'onlygetitem', 'dictvalues')
+ONESHOT = ('iter', 'gen', 'filter', 'map', 'chain', 'islice', 'reversed', 'midstream', 'tupleiter', 'valuesiter') + tuple(
+    'hint_' + p for p in HINT_POLICIES)
+PAIRS_ONLY = ('dictitems', 'itemsiter')          # 2-tuple elements with distinct hashable keys only
+CONTAINERS = REUSABLE + ONESHOT
+
+
+def containers_for(kind):
+    return CONTAINERS + (PAIRS_ONLY if kind in ('tuple', 'tuplemap') else ())
+
+
 def container(kind, data):
+    data = list(data)
     if kind == 'list':
-        return list(data)
+        return data
     if kind == 'tuple':
         return tuple(data)
     if kind == 'iter':
-        return iter(list(data))
+        return iter(data)
     if kind == 'gen':
-        return (x for x in list(data))
+        return (x for x in data)
     if kind == 'lazy':
-        return Lazy(list(data))
+        return Lazy(data)
+    if kind == 'deque':
+        return collections.deque(data)
+    if kind == 'userlist':
+        return collections.UserList(data)
+    if kind == 'onlyiter':
+        return OnlyIter(data)
+    if kind == 'sizediter':
+        return SizedIter(data)
+    if kind == 'onlygetitem':
+        return OnlyGetitem(data)
+    if kind == 'dictvalues':
+        return dict(enumerate(data)).values()
+    if kind == 'valuesiter':
+        return iter(dict(enumerate(data)).values())
+    if kind == 'dictitems':
+        return dict(data).items()
+    if kind == 'itemsiter':
+        return iter(dict(data).items())
+    if kind == 'tupleiter':
+        return iter(tuple(data))
+    if kind == 'filter':
+        mixed = []
+        for i, e in enumerate(data):
+            mixed += [_DROP] * (i % 2) + [e]
+        return filter(lambda e: e is not _DROP, mixed + [_DROP])
+    if kind == 'map':
+        return map(lambda e: e, data)
+    if kind == 'chain':
+        return itertools.chain(data[:len(data) // 2], iter(data[len(data) // 2:]))
+    if kind == 'islice':
+        return itertools.islice(data + [_DROP, _DROP], len(data))
+    if kind == 'reversed':
+        return reversed(data[::-1])
+    if kind == 'midstream':
+        it = iter([_DROP] + data)                # an iterator the caller has already taken something from
+        next(it)
+        return it
+    if kind.startswith('hint_'):
+        return HintedIter(data, kind[5:])
     raise ValueError(kind)
 
 
-def run_direct(src, items, cont):
+def contents(kind, held):
+    """what a reusable container holds now"""
+    if kind in ('lazy', 'onlyiter', 'sizediter', 'onlygetitem'):
+        return list(held._d)
+    return list(held)
+
+
+# how an object element serves its attributes
+FLAVOURS = ('dict', 'getattr', 'class', 'property')
+
+
+class _Rec:
+    def __str__(self):
+        return 'obj%d' % self._oid
+
+
+class GetattrRec(_Rec):
+    """the attributes are columns served by __getattr__ (rows of result sets; the library's own DictInstance)"""
+
+    def __init__(self, oid, attrs):
+        self.__dict__['_oid'] = oid
+        self.__dict__['_cols'] = dict(attrs)
+
+    def __getattr__(self, name):
+        try:
+            return self.__dict__['_cols'][name]
+        except KeyError:
+            raise AttributeError(name)
+
+    def _snap(self):
+        return tuple(sorted((k, repr(x)) for k, x in self._cols.items())) + tuple(sorted(
+            k for k in self.__dict__ if k not in ('_oid', '_cols')))
+
+
+def class_rec(oid, attrs):
+    """the attributes live on the object's class, none in the instance"""
+    cls = type('ClassRec', (_Rec,), dict(attrs, _oid=oid, _names=tuple(sorted(attrs)), _snap=lambda self: tuple(
+        (k, repr(getattr(self, k))) for k in self._names) + tuple(sorted(self.__dict__))))
+    return cls()
+
+
+def property_rec(oid, attrs):
+    """the attributes are computed: read-only properties"""
+    d = {k: property(lambda self, v=v: v) for k, v in attrs.items()}
+    cls = type('PropertyRec', (_Rec,), dict(d, _oid=oid, _names=tuple(sorted(attrs)), _snap=lambda self: tuple(
+        (k, repr(getattr(self, k))) for k in self._names) + tuple(sorted(self.__dict__))))
+    return cls()
+
+
+def make_obj(flavour, oid, attrs):
+    if flavour == 'getattr':
+        return GetattrRec(oid, attrs)
+    if flavour == 'class':
+        return class_rec(oid, attrs)
+    if flavour == 'property':
+        return property_rec(oid, attrs)
+    return proggen.Obj(oid, attrs)
+
+
+def run_direct(src, items, cont, outer=None, flavour='dict', shared=False):
     from DocumentTemplate import HTML
     world = proggen.World()
-    data = [proggen.to_py(world, it) for it in items]
+    data = [to_py2(world, it, flavour) for it in items]
     try:
-        return {'ok': HTML(src)(seq=container(cont, data))}
+        return {'ok': (shared_template(src) if shared else HTML(src))(seq=container(cont, data), **(outer or {}))}
     except Exception as e:  # noqa
         return {'raise': type(e).__name__, 'msg': str(e)[:200]}
 
@@ -309,7 +610,7 @@ BATCH_COMBOS = [('start', 'size'), ('size',), ('start', 'end'), ('start', 'end')
                 ('start', 'size', 'orphan'), ('size', 'orphan'), ('start', 'end', 'size'), ('end', 'size'),
                 ('start', 'size', 'overlap'), ('start', 'end', 'orphan', 'overlap')]
 LABEL_VAR = {'obj': 'sequence-item', 'str': 'sequence-item', 'int': 'sequence-item', 'tuple': 'sequence-key',
-             'tuplemap': 'sequence-key', 'map': 'sequence-var-y'}
+             'tuplemap': 'sequence-key', 'map': 'sequence-var-y', 'mixed': 'sequence-item', 'mixedmap': 'sequence-var-y'}
 _SHARED = {}
 
 
@@ -322,7 +623,7 @@ def shared_template(src):
     return t
 
 
-def gen_items2(r, kind, n):
+def gen_items2(r, kind, n, names=()):
     """like gen_items; every structured element has x (with ties) and y (a permutation: all distinct); x may mix values
     that are equal but print differently (1, 1.0, True)"""
     flavour = r.choice(['int', 'int', 'str', 'mixed'])
@@ -336,33 +637,34 @@ def gen_items2(r, kind, n):
             x = r.choice([1, 1.0, True, 2, 2.0, 3])
         else:
             x = r.choice([1, 2, 2, 3])
-        attrs = [['x', x], ['y', ys[i]]]
+        attrs = [['x', x], ['y', ys[i]]] + extra_attrs(r, names, i)
         key = r.choice([{'s': 'k%d' % i}, i * 10])
-        if kind == 'obj':
+        ek = r.choice(MIXED[kind]) if kind in MIXED else kind
+        if ek == 'obj':
             items.append({'o': 100 + i, 'a': attrs})
-        elif kind == 'map':
+        elif ek == 'map':
             items.append({'d': attrs})
-        elif kind == 'tuple':
+        elif ek == 'tuple':
             items.append({'t': [key, {'o': 100 + i, 'a': attrs}]})
-        elif kind == 'tuplemap':
+        elif ek == 'tuplemap':
             items.append({'t': [key, {'d': attrs}]})
-        elif kind == 'str':
+        elif ek == 'str':
             items.append({'s': r.choice(['s%d' % i, 'x', ''])})
         else:
             items.append(r.choice([0, 5, -1, i]))
     return items
 
 
-def to_py2(world, v):
+def to_py2(world, v, flavour='dict'):
     if isinstance(v, float):
         return v
     if isinstance(v, dict):
         if 't' in v:
-            return tuple(to_py2(world, x) for x in v['t'])
+            return tuple(to_py2(world, x, flavour) for x in v['t'])
         if 'd' in v:
-            return {k: to_py2(world, x) for k, x in v['d']}
+            return {k: to_py2(world, x, flavour) for k, x in v['d']}
         if 'o' in v:
-            return proggen.Obj(v['o'], {k: to_py2(world, x) for k, x in v['a']})
+            return make_obj(flavour, v['o'], {k: to_py2(world, x, flavour) for k, x in v['a']})
     return proggen.to_py(world, v)
 
 
@@ -381,6 +683,10 @@ def label(item, kind):
         return jstr(item['t'][0])
     if kind == 'map':
         return jstr(fval(item, kind, 'y'))
+    if kind == 'mixedmap':
+        return jstr(fval(item, ekind(item, kind), 'y'))
+    if kind == 'mixed' and ekind(item, kind) == 'tuple':
+        return jstr(item['t'][1])
     return jstr(item)
 
 
@@ -465,7 +771,7 @@ def gen_seg(r, kind, p_batch, nested=False):
 
 def in_attrs(kind, o, si):
     a = ['seq' if o.get('seqref', 'name') == 'name' else 'expr="seq"']
-    if kind in ('map', 'tuplemap'):
+    if kind in ('map', 'tuplemap', 'mixedmap'):
         a.append('mapping')
     if o.get('noPush'):
         a.append('no_push_item')
@@ -571,11 +877,16 @@ def seg_expected(seg, si, items, kind, env, got_seg, stats):
 
 
 def gen_history(r, focus):
-    kind = r.choice(['obj', 'obj', 'map', 'tuple', 'tuplemap', 'str', 'int'])
+    kind = r.choice(['obj', 'obj', 'map', 'tuple', 'tuplemap', 'str', 'int', 'mixed', 'mixedmap'])
     cont = r.choice(['list', 'list', 'list', 'tuple', 'lazy', 'iter', 'gen'])
-    reusable = cont in ('list', 'tuple', 'lazy')
+    if r.random() < 0.3:
+        cont = r.choice(containers_for(kind))
+    reusable = cont in REUSABLE
     lens = [r.choice([1, 2, 3, 3, 4, 5, 7])] + [r.choice([0, 1, 2, 3, 4, 6, 8]) for _ in range(r.choice([0, 1, 1]))]
-    datasets = [gen_items2(r, kind, n) for n in lens]
+    names = draw_names(r)
+    outer = draw_outer(r, names)
+    flavour = r.choice(FLAVOURS) if r.random() < 0.5 else 'dict'
+    datasets = [gen_items2(r, kind, n, names) for n in lens]
     docs = []
     for di in range(1 if focus == 'batch' else r.choice([1, 1, 2, 3])):
         nseg = r.choice([1, 1, 2, 2, 3]) if (reusable and focus != 'batch') else 1
@@ -583,6 +894,10 @@ def gen_history(r, focus):
                 for _ in range(nseg)]
         if r.random() < 0.3 and not segs[0].get('outer') and not segs[0]['o'].get('batch'):
             segs[0]['o']['boom'] = True
+        for seg in segs:
+            # the body of every tag also asks for (some of) the element names of this history
+            seg['o']['names'] = [nm for nm in names if r.random() < 0.8]
+            seg['o']['outer'] = outer
         docs.append({'segs': segs})
     steps = []
     for k in range(r.randint(1, 2) if focus == 'batch' else r.randint(2, 5)):
@@ -601,7 +916,7 @@ def gen_history(r, focus):
                     v = draw_param(r, p, n, bool(seg.get('outer')))
                     env['b%d_%s' % (si, p)] = str(v) if b['via'] == 'strvar' else v
         steps.append([ti, di, env])
-    return {'kind': kind, 'container': cont, 'datasets': datasets, 'docs': docs,
+    return {'kind': kind, 'container': cont, 'datasets': datasets, 'docs': docs, 'outer': outer, 'flavour': flavour,
             'templates': ['\n'.join(seg_src(kind, seg, si) for si, seg in enumerate(d['segs'])) for d in docs],
             'steps': steps}
 
@@ -614,6 +929,8 @@ def snapshot(data):
             return ('d',) + tuple(sorted((k, repr(x)) for k, x in v.items()))
         if isinstance(v, proggen.Obj):
             return ('o',) + tuple(sorted((k, repr(x)) for k, x in v.__dict__.items()))
+        if isinstance(v, _Rec):
+            return ('r',) + v._snap()
         return repr(v)
     return [one(v) for v in data]
 
@@ -621,8 +938,8 @@ def snapshot(data):
 def run_history(h):
     """render the history on the real code; returns (outputs, what happened to the caller's data)"""
     world = proggen.World()
-    pydata = [[to_py2(world, it) for it in items] for items in h['datasets']]
-    reusable = h['container'] in ('list', 'tuple', 'lazy')
+    pydata = [[to_py2(world, it, h.get('flavour', 'dict')) for it in items] for items in h['datasets']]
+    reusable = h['container'] in REUSABLE
     held = [container(h['container'], d) if reusable else None for d in pydata]
     before = [snapshot(d) for d in pydata]
     tmpls = [shared_template(src) for src in h['templates']]
@@ -630,13 +947,13 @@ def run_history(h):
     for ti, di, env in h['steps']:
         seq = held[di] if reusable else container(h['container'], pydata[di])
         try:
-            outs.append({'ok': tmpls[ti](seq=seq, **env)})
+            outs.append({'ok': tmpls[ti](seq=seq, **dict(h.get('outer') or {}, **env))})
         except Exception as e:  # noqa
             outs.append({'raise': type(e).__name__, 'msg': str(e)[:200]})
     damage = []
     for di, d in enumerate(pydata):
         if reusable:
-            now = list(held[di]._d if h['container'] == 'lazy' else held[di])
+            now = contents(h['container'], held[di])
             if len(now) != len(d) or any(a is not b for a, b in zip(now, d)):
                 damage.append('data set %d: the caller\'s %s no longer holds its elements in the order the caller gave '
                               'them' % (di, h['container']))
@@ -702,6 +1019,11 @@ def histories(res, tier):
             res.count('history_renderings', len(h['steps']))
             res.count('history_kind=' + h['kind'])
             res.count('history_container=' + h['container'])
+            res.count('history_flavour=' + h['flavour'])
+            for d in h['docs']:
+                for seg in d['segs']:
+                    for nm in seg['o']['names']:
+                        res.count('history_name_class=' + name_class(nm))
             pairs = [(s[0], s[1]) for s in h['steps']]
             res.count('history_same_document_same_data_again', len(pairs) - len(set(pairs)))
             res.count('history_same_document_other_data',
@@ -724,6 +1046,8 @@ def histories(res, tier):
                     tuple(tuple(seg_sig(s) for s in d['segs']) for d in h['docs'])))
             if bad:
                 res.oracle_fail.append({'case': {'kind': h['kind'], 'container': h['container'],
+                                                 'objects serve attributes from': h['flavour'],
+                                                 'outer variables': h['outer'],
                                                  'templates': h['templates'], 'datasets': h['datasets'],
                                                  'renderings (document, data set, variables)': h['steps']},
                                         'what': bad[0], 'more': bad[1:4]})
@@ -734,6 +1058,57 @@ def histories(res, tier):
     res.oracle_fail.sort(key=lambda f: 0 if f['what'].startswith(('rendering', 'documented')) else 1)
     for k, v in stats.items():
         res.count(k, v)
+
+
+def sweep(res, tier):
+    """Deterministic product: every container x every item kind x lengths x option sets (x, in the thorough tier, how the
+    objects serve their attributes), each element offering one name of every name class in turn.  The random generator
+    above samples the same space with more options per case; this one makes sure that no (container, kind) pair and no
+    name class is ever left to chance."""
+    r = common.rng('C10/sweep')
+    if tier == 'quick':
+        lengths = (0, 1, 2, 5)
+        optsets = [{}, {'else': True, 'prefix': 'pf'}, {'reverse': True}, {'size': 'n'}, {'size': 2, 'start': 2},
+                   {'noPush': True}]
+    else:
+        lengths = (0, 1, 2, 3, 4, 5, 7)
+        optsets = [{}, {'else': True}, {'prefix': 'pf'}, {'else': True, 'prefix': 'it', 'noPush': True}, {'reverse': True},
+                   {'sort': True}, {'sort': True, 'reverse': True}, {'noPush': True}, {'size': 'n'}, {'size': 'n+1'},
+                   {'size': 1, 'start': 'n'}, {'size': 2, 'start': 2}, {'size': 3, 'start': 1, 'reverse': True},
+                   {'size': 2, 'start': 1, 'sort': True, 'prefix': 'pf'}]
+    k = 0
+    for kind in ('obj', 'map', 'tuple', 'tuplemap', 'str', 'int', 'mixed', 'mixedmap'):
+        for cont in containers_for(kind):
+            for n in lengths:
+                for o in optsets:
+                    for flavour in (FLAVOURS if tier != 'quick' and kind in ('obj', 'tuple') else (None,)):
+                        opts = dict(o)
+                        if opts.get('sort') and kind not in OBJK:
+                            continue
+                        if 'size' in opts:
+                            opts['size'] = {'n': max(n, 1), 'n+1': n + 1}.get(opts['size'], opts['size'])
+                            opts['start'] = {'n': max(n, 1)}.get(opts.get('start', 1), opts.get('start', 1))
+                            if opts['start'] > max(n, 1):
+                                continue                 # a start beyond the sequence is C11's question
+                        k += 1
+                        opts['names'] = [NAME_POOL[k % len(NAME_POOL)][1]]
+                        opts['outer'] = {opts['names'][0]: 'OUT'} if k % 3 == 0 else {}
+                        if flavour is None:
+                            flavour = FLAVOURS[k % len(FLAVOURS)]
+                        items, blocks = make(r, kind, n, opts)
+                        exp = expected(items, kind, opts) + tail_expected(opts)
+                        src = source_for(blocks, opts)
+                        got = run_direct(src, items, cont, opts['outer'], flavour, shared=True)
+                        res.evaluations += 1
+                        res.count('sweep')
+                        res.count('sweep_container=' + cont)
+                        res.count('sweep_name_class=' + name_class(opts['names'][0]))
+                        res.nt(('sweep', kind, cont, tuple(sorted(x for x in o)), n > 1))
+                        if got != {'ok': exp}:
+                            res.oracle_fail.append({
+                                'case': {'source': src, 'items': items, 'container': cont, 'options': opts,
+                                         'objects serve attributes from': flavour},
+                                'what': 'documented values give %r; the engine gives %r' % (exp, got)})
 
 
 def run(res, tier, have_driver):
@@ -755,11 +1130,22 @@ def run(res, tier, have_driver):
                 'length, end before start); x values that are equal but print differently (1, 1.0, True); every rendering must '
                 'give the documented text computed from the caller\'s data (where the documentation leaves a window bound open - '
                 'default size, orphan, start beyond the length - that bound alone is read from the displayed indexes) and the '
-                'caller\'s sequences must be left with the same elements, order and contents')
-    n_cases = 500 if tier == 'quick' else 8000
+                'caller\'s sequences must be left with the same elements, order and contents.  SEQUENCE ADAPTATION: besides '
+                'list / tuple / iterator / generator / lazy sequence the sequence is a one-shot iterator with a PEP 424 length '
+                'hint of every behaviour (exact, upper bound of a filtering stream, lower bound, half, 0, too large, '
+                'NotImplemented, TypeError), a filter / map / chain / islice / reversed / tuple / dict-view iterator, an iterator '
+                'handed over mid-stream, a re-iterable object with only __iter__, with __iter__ + __len__ (dict views), with only '
+                '__getitem__, a deque or a UserList; kinds `mixed` (objects, pairs, strings, numbers in one sequence) and '
+                '`mixedmap` (mappings and (key, mapping) pairs).  ELEMENT NAMES: 0..2 further attributes / keys per element '
+                'with names of the classes identifier / dashed / looks-like-a-sequence-variable / punctuated / not-an-identifier '
+                '(non-ASCII, leading digit, keyword), present on some elements only, values incl. 0 and \'\', with / without an '
+                'outer variable of the same name, read by name and through _[name], probed again after the end tag; objects '
+                'serve attributes from the instance dict / __getattr__ / the class / properties.  SWEEP (deterministic): every '
+                'container x item kind x length x option set, one name class in turn')
+    n_cases = 800 if tier == 'quick' else 12000
     model_cases = []
     for ci in range(n_cases):
-        kind = r.choice(['obj', 'obj', 'map', 'tuple', 'tuplemap', 'str', 'int'])
+        kind = r.choice(['obj', 'obj', 'map', 'tuple', 'tuplemap', 'str', 'int', 'mixed', 'mixedmap'])
         n = r.choice([0, 1, 2, 3, 3, 4, 5, 7])
         opts = {}
         if r.random() < 0.25:
@@ -779,6 +1165,8 @@ def run(res, tier, have_driver):
                 opts['start'] = r.randint(1, n)
         if n >= 1 and r.random() < 0.2:
             opts['boom'] = r.randrange(n)
+        opts['names'] = draw_names(r)
+        opts['outer'] = draw_outer(r, opts['names'])
         items, blocks = make(r, kind, n, opts)
         if opts.get('boom') is not None:
             # did the displayed window reach element `boom`?  (positions are those of the displayed order)
@@ -787,28 +1175,36 @@ def run(res, tier, have_driver):
                 lo = opts.get('start', 1) - 1
                 hi = min(lo + opts['size'], n)
             if lo <= opts['boom'] < hi:
-                exp = 'CAUGHT#GONEGONEGONEGONE'
+                exp = 'CAUGHT' + tail_expected(opts)
             else:
-                exp = expected(items, kind, opts) + '#GONEGONEGONEGONE'
+                exp = expected(items, kind, opts) + tail_expected(opts)
         else:
-            exp = expected(items, kind, opts) + '#GONEGONEGONE'
+            exp = expected(items, kind, opts) + tail_expected(opts)
         src = source_for(blocks, opts)
-        cont = r.choice(['list', 'tuple', 'iter', 'gen', 'lazy']) if not plain else r.choice(['list', 'tuple'])
-        got = run_direct(src, items, cont)
+        cont = r.choice(containers_for(kind)) if not plain else r.choice(['list', 'tuple'])
+        flavour = r.choice(FLAVOURS)
+        got = run_direct(src, items, cont, opts['outer'], flavour)
         res.evaluations += 1
         res.count('kind=' + kind)
         res.count('container=' + cont)
-        res.nt((kind, cont, tuple(sorted(k for k in opts)), n > 1))
+        res.count('flavour=' + flavour)
+        for nm in opts['names']:
+            res.count('name_class=' + name_class(nm))
+        res.nt((kind, cont, tuple(sorted(k for k in opts if k not in ('names', 'outer'))),
+                tuple(sorted(name_class(nm) for nm in opts['names'])), n > 1))
         if got != {'ok': exp}:
-            res.oracle_fail.append({'case': {'source': src, 'items': items, 'container': cont, 'options': opts},
+            res.oracle_fail.append({'case': {'source': src, 'items': items, 'container': cont, 'options': opts,
+                                             'objects serve attributes from': flavour},
                                     'what': 'documented values give %r; the engine gives %r' % (exp, got)})
         if plain:
             case = {'templates': [{'blocks': blocks, 'globals': [], 'vars': [], 'source': src}], 'main': 0, 'clients': [],
-                    'mapping': [], 'kw': [['seq', {'l' if cont == 'list' else 't': items}]],
+                    'mapping': [], 'kw': [['seq', {'l' if cont == 'list' else 't': items}]] + [
+                        [nm, {'s': val}] for nm, val in sorted(opts['outer'].items())],
                     'classes': proggen.class_table(), 'denied': [], 'guard': False, 'utf8': True}
             model_cases.append(case)
         if len(res.samples) < 3 and n >= 2:
             res.sample({'source': src[:400], 'items': items[:3], 'container': cont, 'output': got})
+    sweep(res, tier)
     histories(res, tier)
     nested = [nested_case(r) for _ in range(60 if tier == 'quick' else 1500)]
     res.have_driver = have_driver
@@ -831,12 +1227,16 @@ def run(res, tier, have_driver):
         if d:
             res.corr_mismatch.append({'case': interp.brief(c), 'impl': impl['result'], 'model': m['result'], 'diff': d})
     res.partial.append('theorems cover the unbatched renderer (renderwob); batch windows are C11\'s model; sort / reverse / batch '
-                       'combinations and iterator / generator / lazy inputs are compared with the independent oracle only')
+                       'combinations and iterator / generator / lazy inputs are compared with the independent oracle only '
+                       '(so are the ways objects serve their attributes: the model has one kind of object); element names of '
+                       'every class and mixed sequences over lists / tuples go through the correspondence as well')
     res.assumptions += ['interpreter model validated (not verified) against the real classes',
                         'documented values: index/number/letter/roman/even/odd = position in the whole (sorted, reversed) '
                         'sequence; start/end and first-x/last-x relative to the displayed window',
                         'batch windows: start = number of the first, end = number of the last displayed element (clamped to '
-                        'the length), size = number displayed; bounds the documentation leaves open (default size, orphan, '
+                        'the length), size = number displayed; element names inside the sequence variables\' own grammar '
+                        '(sequence-*, first-*, last-*, previous-*, next-*, <statistic>-*) are not generated: the property text '
+                        'does not say whether the element or the variable answers; bounds the documentation leaves open (default size, orphan, '
                         'start beyond the length, end before start) are read from the displayed indexes (C11 decides them)']
 
 
